@@ -110,6 +110,39 @@ def _(xp, a, b):
     return dict(L=xp.einsum("ii->", m) + xp.einsum("ij,ji->", a, b), m=m)
 
 
+# the same tensor at several operand positions of ONE multi-operand call, with labels that are permutations of each other, a
+# constant in between, and a third operand / non-uniform weights that break the symmetry between the occurrences
+@prog("einsum-same-tensor-permuted-labels", "pure", (3, 3), (3,))
+def _(xp, x, y):
+    return dict(L=xp.einsum("ij,ji,j->", x, x, y))
+
+
+@prog("einsum-same-tensor-permuted-labels-weighted-output", "pure", (3, 3))
+def _(xp, x):
+    w = np.arange(1.0, 10.0).reshape(3, 3)
+    return dict(L=xp.sum(xp.einsum("ij,ji->ij", x, x) * w))
+
+
+@prog("einsum-same-tensor-positions-0-and-2", "pure", (2, 3, 2), (2,))
+def _(xp, x, y):
+    c = np.array([[1.0, -2.0], [0.5, 3.0]])
+    return dict(L=xp.einsum("ijk,kl,kji,l->", x, c, x, y))
+
+
+@prog("einsum-same-tensor-identical-and-permuted", "pure", (2, 2))
+def _(xp, x):
+    w = np.array([[1.0, 2.0], [3.0, 5.0]])
+    return dict(L=xp.sum(xp.einsum("ij,ij,ji->ij", x, x, x) * w))
+
+
+@prog("join-same-tensor-three-positions", "pure", (2, 3), (2, 3))
+def _(xp, a, b):
+    c = xp.concatenate((a, b, a), axis=1)
+    s = xp.stack((a, b * a, a), axis=0)
+    w = np.arange(1.0, 19.0).reshape(2, 9)
+    return dict(L=xp.sum(c * w) + xp.sum(s * np.arange(1.0, 19.0).reshape(3, 2, 3)), c=c)
+
+
 @prog("join", "pure", (2, 3), (1, 3))
 def _(xp, a, b):
     c = xp.concatenate((a, b, a), axis=0)
